@@ -262,3 +262,124 @@ def run(ck, prog):
     _run_pre_dimension(ck, prog)
     from sa import dimension
     dimension.run_rule(ck, prog, set(DIMENSION_FILES))
+
+
+# ------------------------------------------------------------------ cover-tree construction (the default neighbourhood backend), pop-site relabel
+_run_pre_ct = run
+
+
+def pop_site_relabel(ck, prog):
+    """Direct neighbours of a seed core point that were marked as noise earlier are on the work list from the start; when
+    one is popped while still carrying the noise marker, a store of the cluster id must be reachable before the next
+    radius query (constant-propagated gate on the label tests that follow the pop)."""
+    rule, inst = "E1-gate", "a popped neighbour still marked as noise receives the cluster id"
+    try:
+        b = prog.one(FIT)
+    except AnchorError as e:
+        ck.violation(rule, inst, FIT, "", expected="anchor exists", found=f"anchor vanished: {e}")
+        return
+    cx = BodyCtx.of(b)
+    res = cx.res
+    be = guards.back_edges(b)
+    pops = [bb for bb, t in b.calls() if t.get("f") and t["f"]["path"].endswith(("Vec::<T, A>::pop", "VecDeque::<T, A>::pop_front",
+                                                                                 "VecDeque::<T, A>::pop_back", "Vec::<T, A>::remove"))]
+    fr = sorted(guards.call_blocks(b, IS_FRF), key=lambda bb: len(b.dom[bb]))
+    if not pops or len(fr) < 2:
+        ck.note(f"{inst}: no work-list pop / second radius query in DBSCAN::fit: no instance")
+        return
+    fr2 = fr[-1]
+    pop = [p for p in pops if b.dominates(p, fr2)]
+    if not pop:
+        ck.note(f"{inst}: the second radius query is not behind a work-list pop: no instance")
+        return
+    pop = pop[-1]
+    # label vector and noise marker as in border_relabel
+    ylocal, marker = _labels_and_marker(b, cx)
+    if ylocal is None or marker is None:
+        ck.note(f"{inst}: label vector / noise marker not identified: no instance")
+        return
+    stores = [(d.bb, res.rvalue(d.data["r"], 0, ())) for d in b.defs.get(ylocal, []) if d.kind == "store"]
+    grp = [c for c in cx.cmps if b.dominates(pop, c.bb) and not b.dominates(fr2, c.bb) and c.rhs[0] == "int" and c.lhs[0] == "idx"]
+    cut = set(be)
+    for c in grp:
+        if _REL[c.rel](marker, c.rhs[1]):
+            cut.add((c.bb, c.false_bb))
+        else:
+            cut.add((c.bb, c.true_bb))
+    # the marker is overwritten by the relabel itself: evaluate only up to the first store into the label vector
+    reach = b.reachable_from([pop], cut_edges=frozenset(cut))
+    sinks = {sb for (sb, v) in stores if b.dominates(pop, sb) and v[0] != "int" and not b.dominates(fr2, sb)}
+    hit = set()
+    for sb in sinks & reach:
+        # reachable without passing another label store first (a store changes the label the tests read)
+        others = frozenset(x for (x, _) in stores if x != sb and b.dominates(pop, x))
+        if sb in b.reachable_from([pop], cut_edges=frozenset(cut), cut_blocks=others):
+            hit.add(sb)
+    where = b.where(pop)
+    if hit:
+        ck.ok(rule, inst, b.path, where, f"noise marker {marker}; with the popped label == {marker} the cluster-id store at "
+              f"{sorted(b.where(s) for s in hit)[:2]} is reachable ({len(grp)} label tests evaluated)")
+    else:
+        ck.violation(rule, inst, b.path, where,
+                     expected=f"with the popped neighbour's label equal to the noise marker ({marker}) a store of the cluster id is reachable",
+                     found=f"under label == {marker} the tests {[c.where for c in grp][:4]} lead to no store of the cluster id: a border point that "
+                           f"is a direct neighbour of the seed point but was visited earlier keeps the noise label")
+
+
+def _labels_and_marker(b, cx):
+    from sa.match import dim_of
+    res = cx.res
+    be = guards.back_edges(b)
+    ylocal = None
+    for i, j, s in b.stmts():
+        r = s["r"] if s["k"] == "assign" else None
+        if r and r["k"] == "agg" and r.get("name", "").endswith("dbscan::DBSCAN") and "cluster_labels" in r["fields"]:
+            o = r["ops"][r["fields"].index("cluster_labels")]
+            if o["k"] in ("move", "copy") and not o["p"]["pr"]:
+                ylocal = o["p"]["l"]
+                for _ in range(6):
+                    ds = [d for d in b.defs.get(ylocal, []) if d.kind == "assign"]
+                    if len(b.defs.get(ylocal, [])) == 1 and ds and ds[0].data["r"]["k"] == "use" and \
+                            ds[0].data["r"]["o"]["k"] in ("move", "copy") and not ds[0].data["r"]["o"]["p"]["pr"]:
+                        ylocal = ds[0].data["r"]["o"]["p"]["l"]
+                    else:
+                        break
+    if ylocal is None:
+        return None, None
+    fr = sorted(guards.call_blocks(b, IS_FRF), key=lambda bb: len(b.dom[bb]))
+    fr2 = fr[-1] if len(fr) >= 2 else None
+    stores = [(d.bb, res.rvalue(d.data["r"], 0, ())) for d in b.defs.get(ylocal, []) if d.kind == "store"]
+    marker = None
+    ms = Field(2, "min_samples")
+    for c in cx.cmps:
+        for (L, R, lhs_subj) in ((c.lhs, c.rhs, True), (c.rhs, c.lhs, False)):
+            dl = dim_of(L)
+            if not (dl and dl[0] == "len" and contains(dl[1], IS_FR) and ms(R)) or (fr2 is not None and b.dominates(fr2, c.bb)):
+                continue
+            rel = c.rel if lhs_subj else guards.FLIP[c.rel]
+            for edge_rel, dst, other in ((rel, c.true_bb, c.false_bb), (guards.NEG[rel], c.false_bb, c.true_bb)):
+                if guards.ATOMS[edge_rel] <= frozenset("n"):
+                    here = b.reachable_from([dst], cut_edges=be)
+                    there = b.reachable_from([other], cut_edges=be)
+                    for (sb, v) in stores:
+                        if sb in here and sb not in there and v[0] == "int":
+                            marker = v[1]
+    return ylocal, marker
+
+
+def run(ck, prog):
+    _run_pre_ct(ck, prog)
+    from props import C04
+    # points on the cover radius stay in the tree; stored covering radii come from measured distances; duplicate leaves keep their index
+    C04.cover_radius_boundary(ck, prog)
+    C04.radius_provenance(ck, prog)
+    C04.leaf_index_provenance(ck, prog)
+    pop_site_relabel(ck, prog)
+
+
+EXPLANATION += (" Border points: (i) with a neighbour's label equal to the noise marker (the constant stored on the |N| < min_samples "
+                "side), the label tests in the loop over an expansion core point's neighbours leave a queue push or a cluster-id store "
+                "reachable; (ii) a popped work-list entry still carrying the marker reaches a cluster-id store (constant-propagated gate). "
+                "Cover-tree construction as in C04: points on the cover radius stay in the near set, covering radii come from measured "
+                "distances, duplicate leaves keep their own index.")
+TECHNIQUE += "; constant-propagated reachability (gate) rules"
